@@ -237,15 +237,17 @@ func (v *Vol) walk(h *Hier) error {
 			v.prob("links-consistent", "directory nesting deeper than 64 at %q", d.Path())
 			return nil
 		}
+		if len(h.Dirs) >= maxDirs {
+			return fmt.Errorf("more than %d directories", maxDirs)
+		}
+		// every directory record counts as a directory of the volume (a reader lists it), also one whose extent
+		// was reached before; only the descent stops there
+		h.Dirs = append(h.Dirs, d)
 		if seen[d.DirLBA] {
 			v.prob("links-consistent", "directory extent %d reached twice (at %q)", d.DirLBA, d.Path())
 			return nil
 		}
 		seen[d.DirLBA] = true
-		if len(h.Dirs) >= maxDirs {
-			return fmt.Errorf("more than %d directories", maxDirs)
-		}
-		h.Dirs = append(h.Dirs, d)
 		if d.DirLen == 0 || d.DirLen%Sector != 0 {
 			v.prob("dir-extent-size", "directory %q extent length %d is not a positive multiple of 2048", d.Path(), d.DirLen)
 		}
